@@ -32,6 +32,9 @@ import (
 	"github.com/emmansun/gmsm/sm9"
 	"github.com/emmansun/gmsm/smx509"
 
+	"golang.org/x/crypto/cryptobyte"
+	cbasn1 "golang.org/x/crypto/cryptobyte/asn1"
+
 	"verifh/mon"
 	"verifh/wl/reg"
 )
@@ -183,9 +186,7 @@ func (m *material) cold() *objset {
 	must(err)
 	su, err := warmSign.GenerateUserKey(m.uid, hid)
 	must(err)
-	suDER, err := su.MarshalASN1()
-	must(err)
-	o.signUser, err = sm9.UnmarshalSignPrivateKeyASN1(suDER)
+	o.signUser, err = sm9.UnmarshalSignPrivateKeyASN1(userKeyDER(su.Bytes(), warmSign.PublicKey().Bytes()))
 	must(err)
 	o.encMaster, err = sm9.UnmarshalEncryptMasterPrivateKeyASN1(m.encMasterDER)
 	must(err)
@@ -197,9 +198,7 @@ func (m *material) cold() *objset {
 	must(err)
 	eu, err := warmEnc.GenerateUserKey(m.uid, hidEnc)
 	must(err)
-	euDER, err := eu.MarshalASN1()
-	must(err)
-	o.encUser, err = sm9.UnmarshalEncryptPrivateKeyASN1(euDER)
+	o.encUser, err = sm9.UnmarshalEncryptPrivateKeyASN1(userKeyDER(eu.Bytes(), warmEnc.PublicKey().Bytes()))
 	must(err)
 	o.block, err = sm4.NewCipher(m.sm4Key)
 	must(err)
@@ -214,6 +213,17 @@ func (m *material) cold() *objset {
 		must(err)
 	}
 	return o
+}
+
+// userKeyDER encodes SEQUENCE { BIT STRING userKey, BIT STRING masterPublicKey }, the form from which the
+// library's decoders build a user key that knows its master public key.
+func userKeyDER(user, master []byte) []byte {
+	var b cryptobyte.Builder
+	b.AddASN1(cbasn1.SEQUENCE, func(b *cryptobyte.Builder) {
+		b.AddASN1BitString(user)
+		b.AddASN1BitString(master)
+	})
+	return b.BytesOrPanic()
 }
 
 // op is one deterministic call on an object set; its result is bytes (an error is
@@ -300,7 +310,7 @@ var ops = []op{
 		return res(append(k, c...), err)
 	}},
 	{"sm9.UnwrapKey", func(o *objset, m *material, s uint64) []byte {
-		return res(sm9.UnwrapKey(o.encUser, m.uid, m.sm9Wrapped, 32))
+		return res(o.encUser.UnwrapKey(m.uid, m.sm9Wrapped, 32))
 	}},
 	{"sm9.Encrypt", func(o *objset, m *material, s uint64) []byte {
 		return res(sm9.Encrypt(script(s, "h"), o.encPub, m.uid, hidEnc, m.msg, nil))
